@@ -155,6 +155,9 @@ var (
 )
 
 func c05FreshFS(chunk int) {
+	// FileHash memoises per process and never revalidates; every execution starts with a
+	// fresh "process memory"
+	hashFileCache.m = nil
 	fs := vfs.Reset()
 	fs.Chunk = chunk
 	if c05Template == nil {
